@@ -879,6 +879,7 @@ T_MAX_EXECS = 4000          # a clean harness has ~425 schedules; beyond this th
 T_STOP_AFTER_VIOLATIONS = 12
 T_SHARD_BUDGET_S = 120
 _T_CODES = []
+_T_ON = [None]
 
 
 def _t_bound(hid, tier):
@@ -907,6 +908,9 @@ def _t_events(on):
         import rich.palette
         for mod in (rich.palette, rich.color):
             _T_CODES.extend(sched._code_objects(mod))
+    if _T_ON[0] == on:
+        return
+    _T_ON[0] = on
     ev = sys.monitoring.events.LINE if on else 0
     for co in _T_CODES:
         sys.monitoring.set_local_events(sched.TOOL, co, ev)
@@ -978,7 +982,7 @@ def _t_judge(hid, s, obs):
 def _t_child(hid, prefix):
     """one execution in a cold child -> plain data"""
     from .. import sched
-    _t_events(True)
+    _t_events(True)        # already on when forked from _explore_forked's worker; cheap then
     s, obs = sched.run_once(_t_make(hid), prefix, "line", 0)
     sig, vio = _t_judge(hid, s, obs)
     return {"choices": list(s.choices), "cp": [tuple(c) for c in s.cp], "sig": sig, "vio": vio,
@@ -1004,6 +1008,10 @@ def _explore_forked(hid, bound, on_exec, stop):
                     out.append(rec["choices"][:i] + [alt])
         return out
 
+    # scheduler installed, events on and oracle built in the worker before forking: none of this
+    # converts a colour, and the children inherit it instead of redoing it
+    oracle()
+    _t_events(True)
     stack = [[]]
     while stack:
         prefix = stack.pop()
@@ -1076,6 +1084,7 @@ def _part_threads(sh, tier, res):
 
 
 def _replay_threads(case, res):
+    oracle()
     rec = _in_child(lambda: _t_child(case["h"], list(case["choices"])))
     for key, detail in rec["vio"]:
         res.violate(key, case, detail)
@@ -1165,6 +1174,7 @@ def _f_child(first, T, kind, k):
 
 def _part_fault(sh, res):
     first, T, kind = tuple(sh["first"]), sh["system"], sh["kind"]
+    oracle()
     K = _in_child(lambda: _f_child(first, T, kind, 0))["points"]
     res.count("fault_points", K)
     res.counters["max_fault_points_in_one_first_conversion"] = K
